@@ -38,7 +38,7 @@ ASSUMPTIONS = [
 REPORT_COUNTERS = ["signature_sets", "calls", "unique_applicable_ran", "params_identity_checked", "defaults_identity_checked",
                    "results_identity_checked", "exceptions_identity_checked", "none_applicable_checked", "self_checked",
                    "entry_shapes", "zero_positional_calls", "kw_with_omitted_optional", "nested_delegations_checked",
-                   "sets_with_never_true_decoy"]
+                   "sets_with_never_true_decoy", "cases_with_always_equal_arguments"]
 
 TYPES = ["int", "str", "float"]
 
@@ -47,7 +47,7 @@ def plan(tier):
     n = 1500 if tier == "quick" else 30000
     return {"cases": n, "params": {}, "timeout_s": 1500 if tier == "quick" else 7200,
             "min": {"unique_applicable_ran": 5_000, "defaults_identity_checked": 2_000, "exceptions_identity_checked": 500,
-                    "self_checked": 1_000, "zero_positional_calls": 500, "kw_with_omitted_optional": 500}}
+                    "self_checked": 1_000, "cases_with_always_equal_arguments": 100, "zero_positional_calls": 500, "kw_with_omitted_optional": 500}}
 
 
 def gen_case(rng, params, idx):
@@ -109,6 +109,14 @@ def check_case(spec, res):
     class FloatV(float):
         pass
 
+    if spec["valseed"] % 3 == 0:
+        # argument objects whose == answers "equal" to anything (always-equal test doubles; expression builders whose
+        # == returns a truthy node): supplied arguments must still be told from omitted ones
+        res.count("cases_with_always_equal_arguments")
+        for c in (IntV, StrV, FloatV):
+            c.__eq__ = lambda s, o: True
+            c.__ne__ = lambda s, o: False
+            c.__hash__ = lambda s: 7
     mk = {"int": lambda: IntV(7), "str": lambda: StrV("s"), "float": lambda: FloatV(2.5)}
     py = {"int": int, "str": str, "float": float}
     vf = VF()
